@@ -25,6 +25,19 @@ CCParams == IF Ver \in {10, 17}
             ELSE {}
 SFParams == IF Ver \in {10, 17} THEN {SF(k) : k \in Simple} ELSE {}
 
+\* the exact limits of every bounded parameter (all tiers): 2^20 and its
+\* neighbours for Columns / Rows / DamagedRowsBeforeError, the component
+\* limits of the predictors (60, 256), 16 bits, and rows as large as allowed
+LimitVals == {MaxDim - 1, MaxDim, MaxDim + 1}
+FLLimitTriples == ({1} \X {8} \X LimitVals) \cup ({60, 61, 256, 257, MaxDim} \X {8} \X {1})
+                  \cup ({1} \X {16} \X {1, MaxDim}) \cup ({4} \X {16} \X {MaxDim}) \cup ({1} \X {1} \X LimitVals)
+FLLimit == {FL(ko[1], pd, t[1], t[2], t[3], ko[2]) : ko \in KindObo, pd \in {2, 12, 15}, t \in FLLimitTriples}
+CCLimitTriples == (LimitVals \X {0} \X {0}) \cup ({8} \X LimitVals \X {0}) \cup ({8} \X {0} \X LimitVals)
+                  \cup ({MaxDim} \X {MaxDim} \X {MaxDim}) \cup ({MaxDim} \X {1, 2} \X {0})
+CCLimit == IF Ver \in {10, 17}
+           THEN {CC(k, FALSE, al, t[1], t[2], ie, FALSE, t[3]) : k \in {-1, 0, 3}, al \in BOOLEAN, ie \in BOOLEAN, t \in CCLimitTriples}
+           ELSE {}
+
 Line(p) ==
   IF ImplValid(p, Ver)
   THEN LET nd == ImplInfo(p, Ver)
@@ -33,7 +46,7 @@ Line(p) ==
   ELSE [p |-> p, v |-> Ver, valid |-> FALSE]
 
 Lines(S) == LET q == SetToSeq(S) IN [i \in 1..Len(q) |-> Line(q[i])]
-ASSUME ndJsonSerialize(IOEnv.OUT, Lines(FLParams) \o Lines(CCParams) \o Lines(SFParams))
+ASSUME ndJsonSerialize(IOEnv.OUT, Lines(FLParams \cup FLLimit) \o Lines(CCParams \cup CCLimit) \o Lines(SFParams))
 GInit == st = [part |-> "gen"]
 GNext == UNCHANGED st
 =============================================================================
